@@ -28,6 +28,7 @@ def judge(fam, vec, asg):
             return "a second object built from the same string scores %r, the first %r" % (sc, first), None
         sv = obj.severities()
         js = obj.as_json()
+        js_min = obj.as_json(minimal=True)
         rh = obj.rh_vector()
     except Exception as e:  # noqa
         return "accessor raised %s: %s" % (type(e).__name__, e), None
@@ -82,6 +83,9 @@ def judge(fam, vec, asg):
             if k in js and (not isinstance(js[k], str) or
                             js[k].upper() != sv[SEVKEYS.index(k)].upper()):
                 return "JSON %s %r disagrees with severities()" % (k, js[k]), (sc, sv)
+    for i, k in enumerate(SEVKEYS[:nslots]):
+        if k in js_min and fam != "2" and (not isinstance(js_min[k], str) or js_min[k].upper() != sv[i].upper()):
+            return "JSON(minimal) %s %r disagrees with severities()[%d] %r" % (k, js_min[k], i, sv[i]), (sc, sv)
     head = rh.split("/", 1)[0] if isinstance(rh, str) else None
     if head != repr(sc[0]):
         return "rh_vector() score text %r is not the base score %r" % (head, sc[0]), (sc, sv)
